@@ -22,6 +22,7 @@
 (*                   "notnot"    : not (self.x is not None) or cmp                                       *)
 (*                   "other"     : self.y is None or cmp           (guard on a DIFFERENT property)       *)
 (*                   "othernot"  : not (self.y is not None) or cmp                                       *)
+(*                   "isnone3"   : self.x is None or len(self.x) == 99 or cmp   (a chained disjunction)   *)
 (*   [k |-> "pat", ids |-> <<p1, ..>>, g, ...]   is_p1(X) and is_p2(X) ...  (pattern verification calls) *)
 (*   [k |-> "set", ids |-> <<s1, ..>>, g, ...]   X in S1 and X in S2 ...    (constant sets)              *)
 (*                                                                                                       *)
@@ -37,13 +38,14 @@ EXTENDS Integers, Sequences, FiniteSets
 
 LenOps   == {"<", "<=", "==", ">", ">=", "!="}
 Sides    == {"L", "R"}
-Guards   == {"none", "isnone", "notnot", "other", "othernot"}
+Guards   == {"none", "isnone", "notnot", "other", "othernot", "isnone3"}
 Forms    == {"const", "nonconst", "conj"}
 Kinds    == {"str", "bytes", "list", "cprim", "listcprim", "enum"}
 Slots    == {"v", "i"}
 
 SameGuards    == {"isnone", "notnot"}      \* guard names x itself
 ForeignGuards == {"other", "othernot"}     \* guard names another property
+ChainedGuards == {"isnone3"}               \* self.x is None or len(self.x) == 99 or cmp : THREE disjuncts, not a documented form
 
 LenAtom(op, c, side, g, form) == [k |-> "len", op |-> op, c |-> c, side |-> side, g |-> g, form |-> form, ids |-> <<>>]
 PatAtom(ids, g) == [k |-> "pat", op |-> "", c |-> 0, side |-> "L", g |-> g, form |-> "const", ids |-> ids]
@@ -57,7 +59,7 @@ Range(f) == {f[x] : x \in DOMAIN f}
 (* a string (sequence of code points) matches iff all its characters are allowed.                        *)
 (* (harness/schema_scen.py holds the concrete regex texts and cross-checks this table with `re`.)        *)
 
-PatIds == {"ab", "bc", "b", "bmpx", "astral", "ar1", "ar2", "ar3", "ar8"}
+PatIds == {"ab", "bc", "b", "bmpx", "astral", "ar1", "ar2", "ar3", "ar8", "abc_re"}
 CP_a == 97
 CP_b == 98
 CP_c == 99
@@ -72,6 +74,7 @@ PatRanges(p) ==
       [] p = "b"      -> {<<CP_b, CP_b>>}
       [] p = "bmpx"   -> {<<CP_b, CP_b>>, <<CP_eacute, CP_eacute>>}
       [] p = "astral" -> {<<CP_b, CP_b>>, <<CP_grin, CP_grin>>}
+      [] p = "abc_re" -> {<<CP_a, CP_c>>}     \* written as a multi-statement pattern function that re-assigns a building block
       [] p = "ar1"    -> {<<CP_b, CP_b>>, <<65536, 65551>>}      \* U+10000 - U+1000F : D800 only
       [] p = "ar2"    -> {<<CP_b, CP_b>>, <<65541, 66565>>}      \* U+10005 - U+10405 : D800 - D801
       [] p = "ar3"    -> {<<CP_b, CP_b>>, <<65536, 68607>>}      \* U+10000 - U+10BFF : D800 - D802 (exactly three)
@@ -129,6 +132,7 @@ Recognised(a) ==
 \* names of the unrecognised forms an atom has (for stratification and structural keys)
 UnrecognisedForms(a) ==
     (IF a.g \in ForeignGuards THEN {"foreign_guard"} ELSE {})
+    \cup (IF a.g \in ChainedGuards THEN {"chained_disjunction"} ELSE {})
     \cup (IF a.k = "len" /\ a.op = "!=" THEN {"ne"} ELSE {})
     \cup (IF a.k = "len" /\ a.form = "nonconst" THEN {"nonconst"} ELSE {})
     \cup (IF a.k = "len" /\ a.form = "conj" THEN {"conj"} ELSE {})
